@@ -566,7 +566,7 @@ def C16(tier, seed):
     rnd = random.Random(seed)
     cap = 400 if tier == "quick" else 2500
     # the specification decides which literal is well formed and what it means
-    info1, li_cases = engine.collect_cases("C16-lits-li", "MC_LangId", dict(Depth=3, FullDepth=2, Small=True, Emit=True), LI_INV)
+    info1, li_cases = engine.collect_cases("C16-lits-li", "MC_LangId", dict(Depth=3, FullDepth=1, Small=False, Emit=True), LI_INV, workers=10)
     info2, loc_cases = engine.collect_cases("C16-lits-loc", "MC_Locale", dict(Depth=5, FullDepth=2, Alpha="small", Emit=True, Mode="loc"), LOC_INV)
     info3, sub_cases = engine.collect_cases("C16-lits-sub", "MC_Subtags", dict(MaxLen=4, FullLen=2, Alpha="reduced", Emit=True), SUB_INV)
     for nm, info in (("C16-lits-li", info1), ("C16-lits-loc", info2), ("C16-lits-sub", info3)):
@@ -608,7 +608,13 @@ def C16(tier, seed):
         xs = sorted(set(xs))
         rnd.shuffle(xs)
         return xs[:n]
-    li_ok_s = pick(li_ok, cap) + ["und", "UND", "en_US", "eN-lAtN-uS-VaLeNcIa", "und-Latn", "root"[:0] or "sr-Cyrl-RS-1abc-valencia"]
+    # every shape equally: literals with two or more variants are as likely to be drawn as bare languages
+    def nvar(s):
+        return sum(1 for t in s.split("-")[1:] if len(t) >= 5 or (len(t) == 4 and t[0].isdigit()))
+    li_ok_s = pick([s for s in li_ok if nvar(s) >= 2], cap // 2) + pick([s for s in li_ok if nvar(s) < 2], cap // 2)
+    # the compiled form stores integers: text order and integer (little-endian) order of variants differ for these
+    li_ok_s += ["und", "UND", "en_US", "eN-lAtN-uS-VaLeNcIa", "und-Latn", "sr-Cyrl-RS-1abc-valencia", "sl-rozaj-nedis", "sl-nedis-rozaj-1994",
+                "de-1996-1901", "ca-valencia-fonipa-alalc97", "en-basiceng-aaaaz-zaaaa"]
     loc_ok_s = pick(loc_ok, cap)
     loc_ok_s += [noisy(s) for s in loc_ok_s[: cap // 4]] + ["und", "en-t-h0-hybrid-u-ca-buddhist-x-foo", "en_US_u_hc_h12",
                                                           "und-t-und-h0-hybrid", "en-u-ca-islamic-civil-t-de-AT-1996-k0-dvorak-x-a-b-c"]
